@@ -548,7 +548,7 @@ def run_history(case, ctx, v15, v16, coherence_every_step=True):
             kinds = sorted({k.split("/")[0] for k in diff})
             v16(f"trace/{what}/{'+'.join(kinds)}", f"rejected declaration #{i} ({what}: {d}) left a trace: " +
                 "; ".join(f"{k}: {before_extra.get(k)} -> {after[k]}" for k in diff[:6]))
-        if case.get("reuse") and extra:
+        if case.get("reuse") and extra and all(extra[0] != s0 for _, _, s0 in pending_reuse):
             pending_reuse.append((i, what, extra[0]))
     # the attempted symbols stay available: declare each as a unit of a dedicated fresh type without reference
     # unit (so that the extra units can never be the result of an operation on the history's own units)
